@@ -1,16 +1,264 @@
 package main
 
 import (
+	"encoding/json"
+	"fmt"
+	"os"
+	"runtime"
+	"strconv"
+	"sync"
+	"sync/atomic"
+
 	"golang.org/x/net/http2/hpack"
 
 	http "github.com/bfenetworks/bfe/bfe_http"
+
+	"verifharness/vh"
 )
 
-type respRun struct{}
+// C38: a handler script (TLC-enumerated, specs/H2/ConnResp.tla) is run in a handler of the real
+// server; the decoded response on stream 1 is reported as `obs`.
 
-func (r *respRun) serve(w http.ResponseWriter, req *http.Request)                {}
-func (r *respRun) onData(s uint32, d []byte, es bool)                            {}
-func (r *respRun) onRst(s uint32, code uint32)                                   {}
-func (r *respRun) onHeaders(s uint32, f []hpack.HeaderField, es bool, err error) {}
-func cmdResp()                                                                   {}
-func cmdFlood()                                                                  {}
+type respWrite struct {
+	N     int  `json:"n"`
+	Flush bool `json:"flush"`
+}
+type respHdr struct {
+	Name string `json:"name"`
+	Val  string `json:"val"`
+}
+type respScript struct {
+	Method   string      `json:"method"`
+	Status   int         `json:"status"`
+	Hdrs     []respHdr   `json:"hdrs"`
+	Plan     []respWrite `json:"plan"`
+	Trailers string      `json:"trailers"`
+	CL       string      `json:"cl"`
+}
+
+type respObs struct {
+	Status   int         `json:"status"`
+	Pseudo   [][2]string `json:"pseudo"`
+	Hdrs     [][2]string `json:"hdrs"`
+	Trailers [][2]string `json:"trailers"`
+	Frames   []string    `json:"frames"` // H | D | T(railers) | R(st), in order
+	ES       []bool      `json:"es"`
+	BodyLen  int         `json:"body_len"`
+	BodyOK   bool        `json:"body_ok"`
+	Rst      int         `json:"rst"`
+	Wrote    []int       `json:"wrote"`
+	WErr     []string    `json:"werr"`
+	HpackErr string      `json:"hpack_err"`
+	Hang     bool        `json:"hang"`
+	Panic    string      `json:"panic"`
+}
+
+type respRun struct {
+	script respScript
+	mu     sync.Mutex
+	obs    respObs
+	off    int
+}
+
+func (r *respRun) serve(w http.ResponseWriter, req *http.Request) {
+	s := r.script
+	for _, h := range s.Hdrs {
+		w.Header().Add(h.Name, h.Val)
+	}
+	if s.Trailers == "declared" {
+		w.Header().Set("Trailer", "X-T1")
+	}
+	if s.CL == "exact" {
+		total := 0
+		for _, p := range s.Plan {
+			total += p.N
+		}
+		w.Header().Set("Content-Length", strconv.Itoa(total))
+	}
+	if s.Status != 0 {
+		w.WriteHeader(s.Status)
+	}
+	woff := 0
+	for _, p := range s.Plan {
+		data := make([]byte, p.N)
+		for i := range data {
+			data[i] = pat(woff + i)
+		}
+		n, err := w.Write(data)
+		woff += n
+		r.mu.Lock()
+		r.obs.Wrote = append(r.obs.Wrote, n)
+		if err != nil {
+			r.obs.WErr = append(r.obs.WErr, err.Error())
+		} else {
+			r.obs.WErr = append(r.obs.WErr, "")
+		}
+		r.mu.Unlock()
+		if p.Flush {
+			if f, ok := w.(http.Flusher); ok {
+				f.Flush()
+			}
+		}
+	}
+	switch s.Trailers {
+	case "declared":
+		w.Header().Set("X-T1", "v1")
+	case "prefix":
+		w.Header().Set("Trailer:X-T2", "v2")
+	}
+}
+
+func (r *respRun) onHeaders(sid uint32, fields []hpack.HeaderField, es bool, err error) {
+	if sid != 1 {
+		return
+	}
+	r.mu.Lock()
+	defer r.mu.Unlock()
+	if err != nil {
+		r.obs.HpackErr = err.Error()
+	}
+	first := true
+	for _, f := range r.obs.Frames {
+		if f == "H" {
+			first = false
+		}
+	}
+	isInfo := false
+	if first {
+		for _, f := range fields {
+			if f.Name == ":status" {
+				if c, _ := strconv.Atoi(f.Value); c >= 100 && c < 200 {
+					isInfo = true
+				}
+			}
+		}
+	}
+	if isInfo {
+		r.obs.Frames = append(r.obs.Frames, "I")
+		r.obs.ES = append(r.obs.ES, es)
+		return
+	}
+	if first {
+		r.obs.Frames = append(r.obs.Frames, "H")
+		for _, f := range fields {
+			if len(f.Name) > 0 && f.Name[0] == ':' {
+				r.obs.Pseudo = append(r.obs.Pseudo, [2]string{f.Name, f.Value})
+				if f.Name == ":status" {
+					r.obs.Status, _ = strconv.Atoi(f.Value)
+				}
+			} else {
+				r.obs.Hdrs = append(r.obs.Hdrs, [2]string{f.Name, f.Value})
+			}
+		}
+	} else {
+		r.obs.Frames = append(r.obs.Frames, "T")
+		for _, f := range fields {
+			r.obs.Trailers = append(r.obs.Trailers, [2]string{f.Name, f.Value})
+		}
+	}
+	r.obs.ES = append(r.obs.ES, es)
+}
+
+func (r *respRun) onData(sid uint32, d []byte, es bool) {
+	if sid != 1 {
+		return
+	}
+	r.mu.Lock()
+	defer r.mu.Unlock()
+	r.obs.Frames = append(r.obs.Frames, "D")
+	r.obs.ES = append(r.obs.ES, es)
+	for i, b := range d {
+		if b != pat(r.off+i) {
+			r.obs.BodyOK = false
+		}
+	}
+	r.off += len(d)
+	r.obs.BodyLen = r.off
+}
+
+func (r *respRun) onRst(sid uint32, code uint32) {
+	if sid != 1 {
+		return
+	}
+	r.mu.Lock()
+	defer r.mu.Unlock()
+	r.obs.Frames = append(r.obs.Frames, "R")
+	r.obs.ES = append(r.obs.ES, false)
+	r.obs.Rst = int(code)
+}
+
+type respCase struct {
+	ID     int        `json:"id"`
+	Script respScript `json:"script"`
+}
+
+func runResp(rc *respCase) respObs {
+	c := &Case{ID: rc.ID, Cfg: Cfg{SW: 0, MaxS: 10, OSW: 1 << 20, MFS: -1, OCWAdd: 1 << 20}}
+	cr := newCaseRun(c)
+	cr.resp = &respRun{script: rc.Script}
+	cr.resp.obs = respObs{Rst: -1, BodyOK: true, Pseudo: [][2]string{}, Hdrs: [][2]string{}, Trailers: [][2]string{},
+		Frames: []string{}, ES: []bool{}, Wrote: []int{}, WErr: []string{}}
+	defer cr.release()
+	if !cr.start() {
+		cr.resp.obs.Hang = true
+		return cr.resp.obs
+	}
+	req := "get"
+	if rc.Script.Method == "HEAD" {
+		req = "head"
+	}
+	cr.step(Step{A: "c", K: "HEADERS", S: 1, ES: true, Req: req, CL: -1, IWS: -1, MFS: -1})
+	cr.resp.mu.Lock()
+	defer cr.resp.mu.Unlock()
+	o := cr.resp.obs
+	o.Hang = cr.hang
+	if v := cr.panicText.Load(); v != nil {
+		o.Panic = v.(string)
+	}
+	return o
+}
+
+func cmdResp() {
+	var all []*respCase
+	vh.EachCase(func(line []byte) {
+		c := &respCase{}
+		if err := json.Unmarshal(line, c); err != nil {
+			fmt.Fprintln(os.Stderr, "bad case:", err)
+			os.Exit(2)
+		}
+		all = append(all, c)
+	})
+	res := make([]map[string]interface{}, len(all))
+	workers := runtime.NumCPU() * 2
+	if workers > 16 {
+		workers = 16
+	}
+	var wg sync.WaitGroup
+	idx := int64(-1)
+	for w := 0; w < workers; w++ {
+		wg.Add(1)
+		go func() {
+			defer wg.Done()
+			for {
+				i := int(atomic.AddInt64(&idx, 1))
+				if i >= len(all) {
+					return
+				}
+				var o respObs
+				p := vh.Guard(func() { o = runResp(all[i]) })
+				if p != "" {
+					o.Hang = true
+					o.Panic = "harness: " + p
+				}
+				res[i] = map[string]interface{}{"id": all[i].ID, "obs": o}
+			}
+		}()
+	}
+	wg.Wait()
+	for _, r := range res {
+		vh.Emit(r)
+	}
+	vh.Emit(map[string]interface{}{"summary": true, "cases": len(all)})
+}
+
+func cmdFlood() {}
